@@ -206,6 +206,7 @@ func (engine) Generate(r *lib.Rng, tier string, i int) any {
 	if c.CancelBefore && r.Chance(50, 100) {
 		nf = 0
 	}
+	c.Deadline = c.CancelBefore && r.Chance(40, 100)
 	perm := r.Perm(len(g.slots))
 	hasRerun, hasConv := false, false
 	for _, si := range perm {
@@ -277,6 +278,19 @@ func (engine) Generate(r *lib.Rng, tier string, i int) any {
 	}
 	if r.Chance(7, 100) {
 		g.sharedItem(c.G)
+	}
+	// the caller of Stream / Transform reads the result: an error item (or, behind the merge of a last
+	// stage of two or more nodes, a panicking stream) in the last stage of the top graph reaches it
+	if (c.Par == "stream" || c.Par == "transform") && !c.G.Loop && !c.G.EndBr && r.Chance(12, 100) {
+		last := c.G.Stages[len(c.G.Stages)-1]
+		n := last[r.Intn(len(last))]
+		if n.Kind == "lam" && n.Beh == "ok" {
+			if len(last) >= 2 && !hasBeh(c.G, "rerun") && r.Chance(40, 100) {
+				n.Beh, n.ID, n.Flav = "convpanic", g.id(), "s"
+			} else {
+				n.Beh, n.Err, n.Flav = "item", g.errSpec(), "s"
+			}
+		}
 	}
 	if (c.Par == "collect" || c.Par == "transform") && r.Chance(6, 100) {
 		c.InErr = g.errSpec()
